@@ -16,8 +16,10 @@ modulo-16 state variables and logs of what the application saw.
 Blocking calls are modelled by an enabledness result: `Res.blocked` means the
 real call would wait on a condition variable; the state is then unchanged.
 
-`close()` is modelled with the repair `fix: discard unsent I PDUs when a data link
-connection is closed` (fixes/C05): the send queue is cleared before DISC is queued.
+`close()` is modelled with the repairs of fixes/C05: 0001 `discard unsent I PDUs when a
+data link connection is closed` (the send queue is cleared before DISC is queued) and 0002
+`close() of a data link connection with unread data still sends DISC` (the receive queue is
+cleared before the wait, so only the DM can end it).
 -/
 namespace NfcVerif.Dlc
 
@@ -226,10 +228,8 @@ def Ep.closeEnd (e : Ep) : Ep := { e.shut with bound := false, closing := false 
 def Ep.close (e : Ep) : Ep × Res :=
   if e.bound = false ∨ e.closing = true then (e, .skip)   -- an application closes a socket once
   else if e.st = .established then
-    let e1 := { e with st := .disconnect, sq := [.disc] }
-    match e1.rq with
-    | [] => ({ e1 with closing := true }, .pending)
-    | _ :: rest => ({ e1 with rq := rest }.closeEnd, .done)
+    -- DISC replaces whatever was unsent, unread data is discarded, then the wait for the DM begins
+    ({ e with st := .disconnect, sq := [.disc], rq := [], closing := true }, .pending)
   else (e.closeEnd, .done)
 
 /-- `close()` after the wait on `recv_ready` returned -/
